@@ -1,4 +1,4 @@
-CONSTANTS MaxN = 5 MaxNLen = 4
+CONSTANTS MaxN = 5 MaxNLen = 4 MaxNHist = 4 MinLen = 0
 INIT Init
 NEXT Next
 INVARIANT Emitted
